@@ -26,6 +26,8 @@ CHECKS = {
          "TLA+ acceptor GroupLine.tla (choice denotation) model-checked with TLC; replay of all states; trace validation", "6 (C07)"),
  "C19": (MC, "GroupLine.tla models adjacent groups as blocks opened by the group's first item, filled by members, closed by anything else; AdjContiguous and CutKills are checked by TLC; all lines up to the bound (blocks at every position, split, cut, `--`/help inside) are replayed with exact values; driver lines validated by TLC.",
          "TLA+ acceptor GroupLine.tla (block automaton) model-checked with TLC; replay of all states; trace validation", "6 (C19)"),
+ "C02": (MC, "RespellStutters (every other spelling of an attached occurrence - other name, `=`, glued, detached - gives the same outcome) is an invariant checked by TLC in every state; the alphabet contains all five spellings x hostile byte values x name kinds, clusters of 2..3; all states replayed and values compared byte-exactly (bytes travel percent-encoded through TLC).",
+         "TLA+ invariant RespellStutters model-checked with TLC; replay of all states with byte-exact values; trace validation", "6 (C02)"),
 }
 NOTE = "Bounded: exhaustive within the stated constants, sampled beyond; trusted: TLC, the JSON reader, the dynamic builder (public bpaf API only)."
 
